@@ -759,3 +759,85 @@ fn c09_duplicate_redelivery_is_ignored() {
     core::mem::forget(trx);
     core::mem::forget(bufs);
 }
+
+// ---------------------------------------------------------------- kernels for the two findings
+
+/// C06 (finding B): the state add_single leaves behind when the FIRST command of a new
+/// perspective is rejected is (empty in-flight perspective, phead = its parent) — shown by
+/// c06_add_single_current_perspective with pre = 0.  From that state, with an earlier accepted
+/// command `c1` already written as a tip, the flush that commit() starts with must succeed,
+/// otherwise the accepted command can never commit.
+#[kani::proof]
+#[kani::unwind(6)]
+fn c06_flush_after_rejected_branch_start() {
+    let (g, a, c1) = (10u8, 11u8, 12u8);
+    let mut store = AStore::with_chain(&[g, a]);
+    // c1 <- a was accepted earlier in this transaction and written out as segment 1
+    let mut s1 = ASeg::empty();
+    s1.index = 1;
+    s1.prior = Prior::Single(loc(0, 1));
+    s1.first_mc = 2;
+    s1.len = 1;
+    s1.ids[0] = c1;
+    store.segs[1] = s1;
+    store.nseg = 2;
+    let mut trx: Trx = Transaction::new(gid(g));
+    trx.original_heads_offset = Some(HeadSetOffset::new(0));
+    trx.heads.insert(cid(c1), loc(1, 2));
+    // a command branching off `g` was rejected: empty perspective at g, phead = g
+    let with_pending: bool = kani::any();
+    let mut p = APersp::new(Prior::Single(addr(g, 0)), Prior::Single(loc(0, 0)), 1);
+    if with_pending {
+        // (cannot happen after a correct revert; included to show the verdict does not depend on it)
+        p.writes[0] = 0;
+    }
+    trx.perspective = Some(p);
+    trx.phead = Some(cid(g));
+    let r = trx.flush(&mut store);
+    assert!(r.is_ok(), "C06: flush after a rejected branch start fails, the accepted command cannot commit");
+    assert!(trx.heads.contains_key(&cid(c1)));
+    core::mem::forget(trx);
+}
+
+/// C09/C02 (finding A): while b2 <- b1 sits in the in-flight perspective (its parent tip b1 was
+/// taken out of the tip map), the transaction must still be able to locate b1 — otherwise a
+/// re-delivered b1 is ingested a second time.
+#[kani::proof]
+#[kani::unwind(6)]
+fn c09_locate_parent_of_inflight_perspective() {
+    let (g, b1, c1, b2) = (10u8, 11u8, 12u8, 13u8);
+    let mut store = AStore::with_chain(&[g]);
+    let mk = |idx: u64, id: u8| {
+        let mut s = ASeg::empty();
+        s.index = idx;
+        s.prior = Prior::Single(loc(0, 0));
+        s.first_mc = 1;
+        s.len = 1;
+        s.ids[0] = id;
+        s
+    };
+    store.segs[1] = mk(1, b1);
+    store.segs[2] = mk(2, c1);
+    store.nseg = 3;
+    let mut trx: Trx = Transaction::new(gid(g));
+    trx.original_heads_offset = Some(HeadSetOffset::new(0));
+    // state after receiving b1, c1, b2: tips = {c1}; b1 was removed when b2's perspective was created
+    trx.heads.insert(cid(c1), loc(2, 1));
+    let mut p = APersp::new(Prior::Single(addr(b1, 1)), Prior::Single(loc(1, 1)), 2);
+    p.cmds[0] = b2;
+    p.ncmd = 1;
+    p.writes[0] = 1;
+    trx.perspective = Some(p);
+    trx.phead = Some(cid(b2));
+    let which: u8 = kani::any();
+    kani::assume(which < 3);
+    let target = if which == 0 { addr(b1, 1) } else if which == 1 { addr(c1, 1) } else { addr(g, 0) };
+    let mut tb = TraversalBuffer::new();
+    let found = match trx.locate(&mut store, target, &mut tb) {
+        Ok(f) => f,
+        Err(_) => panic!("locate failed"),
+    };
+    // every command received so far in this transaction (or committed) must be locatable
+    assert!(found.is_some(), "C09: a command already received in this transaction cannot be located (it would be ingested twice)");
+    core::mem::forget(trx);
+}
